@@ -22,7 +22,7 @@ RULE = ("(a) Hypothesis RuleBasedStateMachine over HeapScheduler + ListScheduler
         "the remainder, same quotient, next quotient, 2^40, inf}), trash (live handler), get (+ trash of the returned "
         "handler as the mediator does), get on empty (SchedulerError expected), dill round trip of (schedulers, "
         "handlers), burn_counter (validity counter of a non-live handler preset to 2^32-k: the only white-box step), "
-        "burst (70-300 pushes across the 64/128/256 reallocation sizes). Oracle after every get: returned handler "
+        "burst (70-300 pushes across the 64/128/256 reallocation sizes), drain (20-300 gets in a row, shrinking the heap below an earlier reallocation size). Oracle after every get: returned handler "
         "is live in the model, its time equals the model minimum as (quotient, remainder), heap and list agree. "
         "fork_twin: an unpickled copy of both schedulers is driven in lockstep with the live ones from then on and "
         "must return the same handler at every get, also where several live events share the minimal time. "
@@ -261,6 +261,16 @@ class SchedulerMachine(RuleBasedStateMachine):
             self._push(i, self._time(kind, (frac + i * 0.137) % 1.0, 1 + i % 3))
             count += 1
 
+    @rule(n=st.integers(20, 300))
+    def drain(self, n):
+        """Many gets in a row (each followed by the mediator's trash of the returned handler): the heap shrinks again
+        below an earlier reallocation size, stale entries reach the root and are purged."""
+        for _ in range(n):
+            if self._min() is None:
+                break
+            self.get()
+        self.flags.add("drain")
+
     @invariant()
     def live_sets_agree(self):
         # cheap sanity of the harness model itself
@@ -320,6 +330,7 @@ def replay_machine(rec, args):
             m._burn(step[1], step[2])
         elif op == "burst":
             m.burst(step[1], step[2])
+        # ("drain" is recorded as its individual gets)
 
 
 # ------------------------------------------------------------------------------------------------------ libFuzzer
